@@ -19,6 +19,7 @@ func init() {
 				{K: "start", I: 0}, {K: "overwrite", I: 0}, {K: "setrto", Arg: 1},
 				{K: "tick", Arg: 0}, {K: "tick", Arg: 1}, {K: "tick", Arg: 2}, {K: "tick", Arg: 3},
 				{K: "resp", I: 0}, {K: "failwrite"}, {K: "close"},
+				{K: "garbage", Arg: 3}, // a datagram with A's id whose first attribute overruns: dropped, the schedule goes on
 			}
 			eps := []string{"drain+close", "close"}
 			cliHistories(c, "C11", cliOpts{MsgSize: []int{2052}}, alpha, depth, eps, "H")
@@ -29,8 +30,12 @@ func init() {
 			cliHistories(c, "C11", cliOpts{MsgSize: []int{24}, StaleFields: true}, alpha, depth-2, eps, "Hstale")
 			// time scales: early ticks (the collector fires between deadlines), and RTOs of 2 minutes, 100 and 250 years
 			// (deadlines beyond what a 64-bit nanosecond count since 1970 can hold)
-			slow := []cliEv{{K: "start", I: 0}, {K: "tick", Arg: 4}, {K: "tick", Arg: 5}, {K: "tick", Arg: 0}, {K: "tick", Arg: 1}, {K: "resp", I: 0}, {K: "failwrite"}, {K: "failwrite", Arg: 1}}
+			slow := []cliEv{{K: "start", I: 0}, {K: "tick", Arg: 4}, {K: "tick", Arg: 5}, {K: "tick", Arg: 0}, {K: "tick", Arg: 1}, {K: "resp", I: 0}, {K: "failwrite"}, {K: "failwrite", Arg: 1}, {K: "garbage", Arg: 2}, {K: "garbage", Arg: 4}}
 			cliHistories(c, "C11", cliOpts{MsgSize: []int{2052}}, slow, depth, eps, "Hearly")
+			// a clock that is stepped back: what the collector saw before the step says nothing about transactions
+			// started after it
+			clk := []cliEv{{K: "start", I: 0}, {K: "clockback"}, {K: "tick", Arg: 2}, {K: "tick", Arg: 4}, {K: "tick", Arg: 0}, {K: "tick", Arg: 1}, {K: "resp", I: 0}}
+			cliHistories(c, "C11", cliOpts{MsgSize: []int{24}}, clk, depth, eps, "Hclockback")
 			// a clock that does not start on a round number (deadlines then fall between the ticks of any coarser grid)
 			cliHistories(c, "C11", cliOpts{ClockOffset: 2300001}, slow, depth-1, eps, "Hoffset")
 			cliHistories(c, "C11", cliOpts{ClockOffset: 4999999, RTO: int64(100 * time.Millisecond)}, slow, depth-1, eps, "Hoffset2")
@@ -122,7 +127,14 @@ func init() {
 			slow := []cliEv{{K: "start", I: 0}, {K: "start", I: 1}, {K: "resp", I: 0}, {K: "resp", I: 1}, {K: "unknown"}, {K: "tick", Arg: 0}, {K: "tick", Arg: 1}}
 			cliHistories(c, "C12", cliOpts{Fallback: true, RTO: int64(2 * time.Minute)}, slow, depth, eps, "Hslow")
 			cliHistories(c, "C12", cliOpts{Fallback: true, RTO: int64(100 * 365 * 24 * time.Hour), NoRetransmit: true}, slow, depth-1, eps, "Hcenturies")
-			small := []cliEv{{K: "start", I: 0}, {K: "start", I: 1}, {K: "resp", I: 0}, {K: "resp", I: 1, Arg: 2}, {K: "unknown"}, {K: "tick", Arg: 1}, {K: "failagent"}, {K: "failwrite"}}
+			// the connection outlives the client (WithNoConnClose): after Close a successor client on the same connection
+			// gets every datagram from then on (checked after every history that closed)
+			cliHistories(c, "C12", cliOpts{Fallback: true, NoConnClose: true}, []cliEv{{K: "start", I: 0}, {K: "resp", I: 0}, {K: "unknown"}, {K: "tick", Arg: 1}, {K: "close"}}, depth-1, []string{"close"}, "Hsuccessor")
+			// responses that carry a FINGERPRINT (right, wrong), alone and with bytes behind the message
+			fps := []cliEv{{K: "start", I: 0}, {K: "resp", I: 0, Arg: 6}, {K: "resp", I: 0, Arg: 7}, {K: "resp", I: 0, Arg: 8}, {K: "unknown", Arg: 7}, {K: "tick", Arg: 1}}
+			cliHistories(c, "C12", cliOpts{Fallback: true}, fps, depth, eps, "Hfingerprint")
+			cliHistories(c, "C12", cliOpts{}, fps, depth-1, eps, "Hfingerprint-nofb")
+			small := []cliEv{{K: "start", I: 0}, {K: "start", I: 1}, {K: "resp", I: 0}, {K: "resp", I: 1, Arg: 2}, {K: "unknown"}, {K: "tick", Arg: 1}, {K: "failagent"}, {K: "failwrite"}, {K: "failwrite", Arg: 1}}
 			cliHistoriesFrom(c, "C12", cliOpts{Fallback: true, PoolFanout: true}, []cliEv{{K: "start", I: 0}, {K: "resp", I: 0}}, small, depth, eps, "Hafter")
 			ev := func(k string, i int) cliEv { return cliEv{K: k, I: i} }
 			tickAfter := cliEv{K: "tick", Arg: 1}
@@ -175,7 +187,8 @@ func init() {
 			}
 			alpha := []cliEv{
 				{K: "start", I: 0}, {K: "do", I: 1}, {K: "resp", I: 0}, {K: "resp", I: 1},
-				{K: "tick", Arg: 1}, {K: "failwrite"}, {K: "readerr", Arg: 1}, {K: "readerr", Arg: 2}, {K: "readerr", Arg: 3}, {K: "close"},
+				{K: "tick", Arg: 1}, {K: "failwrite"}, {K: "failwrite", Arg: 1}, {K: "readerr", Arg: 1}, {K: "readerr", Arg: 2}, {K: "readerr", Arg: 3}, {K: "close"},
+				{K: "garbage", Arg: 4}, // the first part of a message (a header that announces more than has arrived)
 			}
 			optSets := []cliOpts{
 				{}, {NoConnClose: true}, {Fallback: true}, {NoRetransmit: true}, {ConnCloseErr: true}, {AgentCloseErr: true},
